@@ -367,9 +367,10 @@ def zero_rotation_possible(w):
     return any(g[0] in ("RX", "RY", "RZ", "PHASEGATE") and g[3] == 0 for g in w["gates"])
 
 
-def no_pulse(w):
-    """the circuit needs no pulse at all: empty, or only GLOBALPHASE gates"""
-    return all(g[0] == "GLOBALPHASE" for g in w["gates"])
+def no_pulse(w, drops=False):
+    """the circuit needs no pulse at all: empty, or only GLOBALPHASE gates (and, when the compiler drops instructions of
+    duration 0, rotations by exactly 0)"""
+    return all(g[0] == "GLOBALPHASE" or (drops and g[0] in ("RX", "RZ", "PHASEGATE") and g[3] == 0) for g in w["gates"])
 
 
 # ------------------------------------------------------------------------------------------
@@ -380,25 +381,16 @@ def detect_pre():
     return pre
 
 
-def detect_skip_zero():
-    """does GateCompiler.compile drop instructions of zero duration (fixes/C06-1.patch)?  Recognised shapes only."""
-    p = os.path.join(paths.REPO, "src", "qutip_qip", "compiler", "gatecompiler.py")
-    tree = ast.parse(open(p).read())
-    old = ast.dump(ast.parse("instruction_list += instruction").body[0])
-    new = ast.dump(ast.parse("instruction_list += [ins for ins in instruction if ins.duration != 0]").body[0])
-    seen = None
-    for n in ast.walk(tree):
-        if isinstance(n, ast.AugAssign) and isinstance(n.target, ast.Name) and n.target.id == "instruction_list":
-            d = ast.dump(n)
-            if d == old:
-                seen = False
-            elif d == new:
-                seen = True
-            else:
-                raise TranslatorError("GateCompiler.compile: `instruction_list += …` has neither of the two modelled shapes")
-    if seen is None:
-        raise TranslatorError("GateCompiler.compile: `instruction_list += …` not found")
-    return seen
+_FLAGS = {}
+
+
+def source_flags():
+    """(pre, drops, empty_ok): which of the recognised shapes the working tree has (ast, nothing is written)"""
+    key = paths.REPO
+    if key not in _FLAGS:
+        _, info = T_sc.render()
+        _FLAGS[key] = (detect_pre(), info["drops"], info["empty_ok"])
+    return _FLAGS[key]
 
 
 class C06(PropertyCheck):
@@ -434,7 +426,8 @@ class C06(PropertyCheck):
     def regenerate(self, ctx):
         self.info = T_sc.regenerate()
         self.pre = detect_pre()
-        self.skip_zero = detect_skip_zero()
+        self.skip_zero = self.info["drops"]
+        self.empty_ok = self.info["empty_ok"]
         return ["SpinChainTables.lean"]
 
     # ---------------------------------------------------------------------------------
@@ -577,7 +570,7 @@ class C06(PropertyCheck):
                 res.disagree(inp, mnat[:300], [[g.name, aslist(g.targets), aslist(g.controls), g.arg_value] for g in tq.gates][:30],
                              "transpiled gate list", w)
                 continue
-            recs = instr_records(comp)
+            recs = instr_records(comp) if comp.rec_in is not None else []
             total = max([r[5] + r[4] for r in recs] + [1.0])
             bad = None
             if len(recs) != len(mins):
@@ -813,11 +806,12 @@ class C06(PropertyCheck):
         """classes the hypotheses of end_to_end_partial exclude for the source as it is now"""
         if w.get("kind") == "label":
             return False
-        if has_three_qubit_gate(w) and not detect_pre():
+        pre, drops, empty_ok = source_flags()
+        if has_three_qubit_gate(w) and not pre:
             return True
-        if zero_rotation_possible(w) and not detect_skip_zero():
+        if zero_rotation_possible(w) and not drops:
             return True
-        if no_pulse(w):
+        if no_pulse(w, drops) and not empty_ok:
             return True
         return False
 
